@@ -924,6 +924,7 @@ func diodeCheck(prop string, args []string) int {
 		}
 		if prop == "C11" {
 			c11Fatal(out)
+			c11FatalSuppressed(out)
 		}
 	}
 	out.Extra["sum_distinct_interleavings"] = len(inter)
@@ -1005,6 +1006,59 @@ func c11Fatal(out *evid.Out) {
 	}
 }
 
+// c11FatalSuppressed: Fatal() ends the program also when its own event is not written (level, global level, sampler,
+// a discarding hook): what was written before it is still delivered.
+func c11FatalSuppressed(out *evid.Out) {
+	self, err := os.Executable()
+	if err != nil {
+		return
+	}
+	ci := 0
+	for _, wrap := range []string{"plain", "multi", "console-value", "sync"} {
+		for _, sup := range []string{"level", "global", "sampler", "hook"} {
+			for _, n := range []int{1, 5} {
+				ci++
+				poll := []int{0, 150}[ci%2]
+				fin := []string{"Msg", "Msgf", "Send", "MsgFunc"}[ci%4]
+				path := fmt.Sprintf("/verif/build/out/c11fatal.%d.%s.%s.%d", os.Getpid(), wrap, sup, n)
+				cmd := exec.Command(self, "c11-fatal-child", wrap, fmt.Sprint(n), path, fmt.Sprint(poll), fin, "false", sup)
+				err := cmd.Run()
+				code := 0
+				if ee, ok := err.(*exec.ExitError); ok {
+					code = ee.ExitCode()
+				}
+				seen := map[int]bool{}
+				if b, err := os.ReadFile(path); err == nil {
+					for _, ln := range strings.Split(string(b), "\n") {
+						var i int
+						if k := strings.Index(ln, `"i":`); k >= 0 {
+							if _, err := fmt.Sscanf(ln[k:], `"i":%d`, &i); err == nil {
+								seen[i] = true
+							}
+						} else if k := strings.Index(ln, " i="); k >= 0 {
+							if _, err := fmt.Sscanf(ln[k:], " i=%d", &i); err == nil {
+								seen[i] = true
+							}
+						}
+					}
+				}
+				os.Remove(path)
+				missing := 0
+				for i := 0; i < n; i++ {
+					if !seen[i] {
+						missing++
+					}
+				}
+				if code != 1 || missing != 0 {
+					out.Violate("fatal-path-suppressed", fmt.Sprintf("Fatal whose own event is suppressed (%s) through a diode writer (%s, %d prior events, poll %dus, %s): exit status %d, %d of the %d prior events missing", sup, wrap, n, poll, fin, code, missing, n),
+						map[string]interface{}{"check": "c11", "wrap": wrap, "suppressed_by": sup, "n": n})
+				}
+				out.Count("fatal_path_cases_with_suppressed_fatal_event", 1)
+			}
+		}
+	}
+}
+
 // nopLevelWriter is a user-written per-level sink without a Close method.
 type nopLevelWriter struct{}
 
@@ -1025,11 +1079,14 @@ func c11FatalChild(args []string) int {
 	wrap := args[0]
 	var n, pollUs int
 	fmt.Sscan(args[1], &n)
-	fin, conc := "Msg", false
+	fin, conc, sup := "Msg", false, ""
 	if len(args) >= 6 {
 		fmt.Sscan(args[3], &pollUs)
 		fin = args[4]
 		conc = args[5] == "true"
+	}
+	if len(args) >= 7 {
+		sup = args[6]
 	}
 	fh, err := os.Create(args[2])
 	if err != nil {
@@ -1082,6 +1139,21 @@ func c11FatalChild(args []string) int {
 				l.Warn().Int("other", g).Msg("concurrent")
 			}(g)
 		}
+	}
+	// the Fatal call itself goes through a logger whose fatal event is not written
+	switch sup {
+	case "level":
+		l = l.Level(zerolog.Disabled)
+	case "global":
+		zerolog.SetGlobalLevel(zerolog.Disabled)
+	case "sampler":
+		l = l.Sample(&zerolog.BasicSampler{N: 0})
+	case "hook":
+		l = l.Hook(zerolog.HookFunc(func(e *zerolog.Event, lv zerolog.Level, _ string) {
+			if lv == zerolog.FatalLevel {
+				e.Discard()
+			}
+		}))
 	}
 	switch fin {
 	case "Msgf":
